@@ -66,24 +66,28 @@ func init() {
 // for that aspect: a change that makes another aspect of the same expression unprovable is reported.
 // Each entry names the invariant that makes the access safe and why the engine cannot derive it.
 var f6Reviewed = map[string]string{
-	"base.(*LogProcessCounterSet).CountChunk|index recv.chunksCountTotal|index may reach len": "outputIndex enumerates worker.outputList, and the three per-output arrays are made with the number of outputs of the same pipeline (NewLogProcessCounter(…, len(outputs)) in PrepareSequentialPipeline): a relation between two objects built by one constructor call, outside the engine's per-object facts",
-	"base.(*LogProcessCounterSet).CountChunk|index recv.chunksLengthTotal|index may reach len": "same as chunksCountTotal (the three arrays have equal length: proved)",
-	"base.(*LogProcessCounterSet).CountStream|index recv.serializedLengthTotal|index may reach len": "same as chunksCountTotal",
-	"base.(*LogProcessCounterSet).RegisterCustomCounter$1|index recv.currentCustomCounters|index may reach len": "a custom counter's index is the size of customCounterVecMap when it was registered; currentCustomCounters is made with len(customCounterVecMap) by SelectMetricKeySet, which runs per record, i.e. after every registration (registrations happen in NewTransform during pipeline construction): a temporal argument about map size, not expressible as a linear fact",
-	"base.(*LogProcessCounterSet).RegisterCustomCounter$1|index recv.currentCustomCounters|index may be negative": "the index is len(map) at registration time (>= 0); the value passes through a closure cell the engine does not track",
-	"base.(*LogProcessCounterSet).SelectMetricKeySet|index makeslice|index may reach len": "vec.index ranges over the values of customCounterVecMap, each assigned the then-current map size (0..n-1, distinct) and the slice is made with len(map) = n: a property of the map's contents",
-	"base.(*LogProcessCounterSet).SelectMetricKeySet|index makeslice|index may be negative": "see above (vec.index >= 0)",
-	"base.(LogFieldLocator).provideTemplatePart|index param:fields|index may reach len": "schema contract SC1/SC2: the only RecordType handed to a template expander in production is record.Fields (taddfields, tswitch via Expander.Run); the call goes through a function value (PartProvider), so the caller is not visible to the precondition search",
-	"base.(LogFieldLocator).provideTemplatePart|index param:fields|index may be negative": "see above",
-	"input/tcplistener.(*multiLineReader).processBuffer|slice slice(recv.buffer,hi=param:bufferEnd)|low bound may exceed high bound": "buffer[recordStart:searchStart-1]: recordStart is 0 (and searchStart > 0 is tested on this path) or an earlier value of searchStart, which grows by nextEndRel+1 >= 1 per iteration, so recordStart < searchStart: a disjunctive invariant (recordStart == 0 or recordStart < searchStart), outside the engine's convex linear domain. recordStart <= searchStart, 0 <= recordStart and searchStart <= bufferEnd are proved",
-	"orchestrate/obase.(tagKeyFieldIndex).provideLabelSetTemplatePart|index param:labelValues|index may reach len": "the index is the position of the key field in keyFields found by NewTagBuilder (slices.Index != -1), and labelValues are the key values of one pipeline (len(keyFields) of them, from FieldSetExtractor): relation between a construction-time index and a per-pipeline slice passed through a function value",
-	"orchestrate/obase.(tagKeyFieldIndex).provideLabelSetTemplatePart|index param:labelValues|index may be negative": "see above (slices.Index result after the != -1 test)",
-	"run.(*ReloadableOrchestrator).NewSink|index recv.downstreamSinks|index may reach len": "clientNumber < base.MaxClientNumber = len(array): the accept loop rejects a connection whose descriptor number is not below MaxClientNumber before starting runConnection (checked by C07.R1g); the value then travels through two interface calls (NewSink), which the precondition search does not follow",
-	"transform/textractspecial.matchValidCharsFromEnd|index param:validChars|index may reach len": "validChars is nil or has 256 entries (proved); on the call that is not guarded by `validChars != nil` the boundary that would delimit the label is empty, and newStringExtractor rejects a nil table ('*') for exactly that combination (checked by C07.R1n): an implication between two fields of the extractor, outside the linear domain",
-	"transform/textractspecial.matchValidCharsFromStart|index param:validChars|index may reach len": "see matchValidCharsFromEnd",
-	"util.(BytesPoolBy2n).Get|index recv|index may reach len": "index = 32 - LeadingZeros32(length) is 32 only for length >= 2^31; length is the length of one input line, bounded by the listener buffer (4 x InputLogMaxRecordBytes, a few MiB); the pool has 32 entries (proved)",
-	"util.(BytesPoolBy2n).Put|index recv|index may be negative": "the buffer comes from Get, whose pools allocate 1<<n bytes (n >= 0), so len(*buf) >= 1 and LeadingZeros32 <= 31",
-	"util.(BytesPoolBy2n).Put|index recv|index may reach len": "32 - lz - 1 <= 31 < 32 = len(pools)",
+	"base.(*LogProcessCounterSet).CountChunk|index recv.chunksCountTotal|index may reach len":                                                                                                           "outputIndex enumerates worker.outputList, and the three per-output arrays are made with the number of outputs of the same pipeline (NewLogProcessCounter(…, len(outputs)) in PrepareSequentialPipeline): a relation between two objects built by one constructor call, outside the engine's per-object facts",
+	"base.(*LogProcessCounterSet).CountChunk|index recv.chunksLengthTotal|index may reach len":                                                                                                          "same as chunksCountTotal (the three arrays have equal length: proved)",
+	"base.(*LogProcessCounterSet).CountStream|index recv.serializedLengthTotal|index may reach len":                                                                                                     "same as chunksCountTotal",
+	"base.(*LogProcessCounterSet).RegisterCustomCounter$1|index recv.currentCustomCounters|index may reach len":                                                                                         "a custom counter's index is the size of customCounterVecMap when it was registered; currentCustomCounters is made with len(customCounterVecMap) by SelectMetricKeySet, which runs per record, i.e. after every registration (registrations happen in NewTransform during pipeline construction): a temporal argument about map size, not expressible as a linear fact",
+	"base.(*LogProcessCounterSet).RegisterCustomCounter$1|index recv.currentCustomCounters|index may be negative":                                                                                       "the index is len(map) at registration time (>= 0); the value passes through a closure cell the engine does not track",
+	"base.(*LogProcessCounterSet).SelectMetricKeySet|index makeslice|index may reach len":                                                                                                               "vec.index ranges over the values of customCounterVecMap, each assigned the then-current map size (0..n-1, distinct) and the slice is made with len(map) = n: a property of the map's contents",
+	"base.(*LogProcessCounterSet).SelectMetricKeySet|index makeslice|index may be negative":                                                                                                             "see above (vec.index >= 0)",
+	"base.(LogFieldLocator).provideTemplatePart|index param:fields|index may reach len":                                                                                                                 "schema contract SC1/SC2: the only RecordType handed to a template expander in production is record.Fields (taddfields, tswitch via Expander.Run); the call goes through a function value (PartProvider), so the caller is not visible to the precondition search",
+	"base.(LogFieldLocator).provideTemplatePart|index param:fields|index may be negative":                                                                                                               "see above",
+	"input/tcplistener.(*multiLineReader).processBuffer|slice slice(recv.buffer,hi=param:bufferEnd)|low bound may exceed high bound":                                                                    "buffer[recordStart:searchStart-1]: recordStart is 0 (and searchStart > 0 is tested on this path) or an earlier value of searchStart, which grows by nextEndRel+1 >= 1 per iteration, so recordStart < searchStart: a disjunctive invariant (recordStart == 0 or recordStart < searchStart), outside the engine's convex linear domain. recordStart <= searchStart, 0 <= recordStart and searchStart <= bufferEnd are proved",
+	"orchestrate/obase.(tagKeyFieldIndex).provideLabelSetTemplatePart|index param:labelValues|index may reach len":                                                                                      "the index is the position of the key field in keyFields found by NewTagBuilder (slices.Index != -1), and labelValues are the key values of one pipeline (len(keyFields) of them, from FieldSetExtractor): relation between a construction-time index and a per-pipeline slice passed through a function value",
+	"orchestrate/obase.(tagKeyFieldIndex).provideLabelSetTemplatePart|index param:labelValues|index may be negative":                                                                                    "see above (slices.Index result after the != -1 test)",
+	"run.(*ReloadableOrchestrator).NewSink|index recv.downstreamSinks|index may reach len":                                                                                                              "clientNumber < base.MaxClientNumber = len(array): the accept loop rejects a connection whose descriptor number is not below MaxClientNumber before starting runConnection (checked by C07.R1g); the value then travels through two interface calls (NewSink), which the precondition search does not follow",
+	"transform/textractspecial.matchValidCharsFromEnd|index param:validChars|index may reach len":                                                                                                       "validChars is nil or has 256 entries (proved); on the call that is not guarded by `validChars != nil` the boundary that would delimit the label is empty, and newStringExtractor rejects a nil table ('*') for exactly that combination (checked by C07.R1n): an implication between two fields of the extractor, outside the linear domain",
+	"transform/textractspecial.matchValidCharsFromStart|index param:validChars|index may reach len":                                                                                                     "see matchValidCharsFromEnd",
+	"transform/textract.(*extractTransform).Transform|index (*regexp.Regexp).FindStringSubmatchIndex(recv.pattern,base.(LogFieldLocator).Get(recv.keyLocator,param:record.Fields))|index may reach len": "regexp contract: a non-nil FindStringSubmatchIndex result has 2*(NumSubexp+1) entries, and subexpFieldLocators is made with len(pattern.SubexpNames()) = NumSubexp+1 entries for the same pattern (NewTransform), so 2*i+1 < len(loc) for every i < len(subexpFieldLocators): a property of a third-party API, not visible in the module's code",
+	"transform/textract.(*extractTransform).Transform|slice base.(LogFieldLocator).Get(recv.keyLocator,param:record.Fields)|high bound may exceed len":                                                  "regexp contract: loc[2i] <= loc[2i+1] are offsets into the matched string when they are not negative (both are tested >= 0 on this path)",
+	"transform/textract.(*extractTransform).Transform|slice base.(LogFieldLocator).Get(recv.keyLocator,param:record.Fields)|low bound may exceed high bound":                                            "see above",
+	"transform/textract.(*extractTransform).Transform|slice base.(LogFieldLocator).Get(recv.keyLocator,param:record.Fields)|low bound may be negative":                                                  "tested on this path (loc[2i] < 0 skips the group)",
+	"util.(BytesPoolBy2n).Get|index recv|index may reach len":                                                                                                                                           "index = 32 - LeadingZeros32(length) is 32 only for length >= 2^31; length is the length of one input line, bounded by the listener buffer (4 x InputLogMaxRecordBytes, a few MiB); the pool has 32 entries (proved)",
+	"util.(BytesPoolBy2n).Put|index recv|index may be negative":                                                                                                                                         "the buffer comes from Get, whose pools allocate 1<<n bytes (n >= 0), so len(*buf) >= 1 and LeadingZeros32 <= 31",
+	"util.(BytesPoolBy2n).Put|index recv|index may reach len":                                                                                                                                           "32 - lz - 1 <= 31 < 32 = len(pools)",
 }
 
 func f6Key(fn *ssa.Function, o idxOblig, why string) string {
